@@ -380,6 +380,11 @@ def regenerate():
     changed = write_if_changed(os.path.join(LEAN_DIR, "PamsGen", "AmbientSites.lean"), text)
     status["AmbientSites"] = {"sites": len(sites), "seed_sites": len(seeds), "rewritten": changed}
     regenerate_fragments(status)
+    try:
+        import py2lean
+        status["Code"] = py2lean.regenerate()       # (T2) the abstract syntax of the decision code
+    except Exception as e:
+        status["Code"] = {"error": "%s: %s" % (type(e).__name__, e)}
     stamp = os.path.join(LEAN_DIR, "PamsGen", "Stamp.lean")
     write_if_changed(stamp, "-- generated by harness/extract.py\nnamespace PamsGen\ndef generated : Bool := true\nend PamsGen\n")
     return status
